@@ -4,7 +4,7 @@
    language_id None and removes it again, and publish_diagnostics then sends []. *)
 Require Import Base Server ServerLemmas.
 
-Definition not_open (o : op) : bool := match o with Open _ _ _ => false | _ => true end.
+Definition not_open (o : op) : bool := match o with Open _ _ _ _ => false | _ => true end.
 
 (* no didOpen in flight, none waiting *)
 Definition no_open_pending (y : sys) : Prop :=
@@ -26,12 +26,17 @@ Proof.
     destruct (lookup (l_url l) (s_docs w)) as [e|] eqn:Ee.
     + assert (Hne : url_eqb u (l_url l) = false).
       { apply url_eqb_neq. intro E. subst u. congruence. }
-      set (e1 := if dictv_eqb (e_dict e) _ then e else _) in H.
-      destruct (e_lang e1) as [lg|]; [destruct (kind lg); [| destruct (e_ident e1 =? t_ident t) |]|];
+      set (e1 := rebase _ _ e) in H.
+      destruct (stale (l_ver l) (e_ver e1));
+        [inversion H; subst; clear H; cbn [s_docs set_docs]; rewrite lookup_upsert_neq by exact Hne; repeat split; auto|].
+      set (e2 := bump _ e1) in H.
+      destruct (e_lang e2) as [lg|]; [destruct (kind lg); [| destruct (e_ident e2 =? t_ident t) |]|];
         inversion H; subst; clear H; cbn [s_docs set_docs set_lock]; rewrite ?lookup_upsert_neq, ?lookup_remove_neq by exact Hne;
         repeat split; auto.
-    + cbn [new_entry e_dict] in H. rewrite dictv_eqb_refl in H. cbn [e_lang new_entry] in H.
-      inversion H; subst; clear H. cbn [s_docs set_docs]. rewrite lookup_remove. rewrite Hn. destruct (url_eqb u (l_url l')); repeat split; auto.
+    + unfold rebase in H. cbn [new_entry e_base] in H. rewrite dictv_eqb_refl in H.
+      destruct (l_ver l); cbn [stale e_ver bump e_set_ver e_lang new_entry] in H;
+        inversion H; subst; clear H; cbn [s_docs set_docs]; rewrite lookup_remove; rewrite Hn;
+        destruct (url_eqb u (l_url l')); repeat split; auto.
   - (* IIdentFinish *)
     destruct (l_text l) as [t|]; [|inversion H; subst; repeat split; auto].
     destruct (lookup (l_url l) (s_docs w)) as [e|] eqn:Ee; inversion H; subst; clear H; [|repeat split; auto].
@@ -137,7 +142,7 @@ Qed.
 
 (* non-vacuity + the situation of the name: a didChange is in flight (it has already sent its
    configuration request) when the didClose is handled; it finishes afterwards *)
-Definition cw_history : list op := [Open (UFile 0 0) LPlain (mktext 0 0); Change (UFile 0 0) (mktext 1 0); Close (UFile 0 0)].
+Definition cw_history : list op := [Open (UFile 0 0) LPlain (mktext 0 0) 1; Change (UFile 0 0) (mktext 1 0) 2; Close (UFile 0 0)].
 Definition cw_prefix : list choice := CAdmit :: repeat (CRun 0) 8 ++ [CAdmit; CRun 1; CAdmit; CRun 2; CRun 2].
 Definition cw_suffix : list choice := repeat (CRun 1) 7.
 Example close_wins_applies :
